@@ -100,6 +100,7 @@ type Op struct {
 	EndT     time.Duration
 	StartSeq int
 	EndSeq   int
+	timedEnd bool
 
 	// get-* parameters for the oracles
 	A, B int64
